@@ -218,6 +218,28 @@ impl<'tcx> Cx<'tcx> {
             o.push(("def", s(tcx.def_path_str(u.def))));
             if let Some(p) = u.promoted {
                 o.push(("promoted", V::I(p.index() as i128)));
+                // a promoted `&Enum::Variant` (e.g. `x == Component::ParentDir`): name the variant the promoted body builds
+                if u.def.is_local() {
+                    let pm = tcx.promoted_mir(u.def);
+                    if let Some(pb) = pm.get(p) {
+                        let mut variants: Vec<String> = Vec::new();
+                        for bbd in pb.basic_blocks.iter() {
+                            for st in bbd.statements.iter() {
+                                if let StatementKind::Assign(bx) = &st.kind {
+                                    if let Rvalue::Aggregate(ak, _) = &bx.1 {
+                                        if let mir::AggregateKind::Adt(did, vidx, _, _, _) = **ak {
+                                            let ad = tcx.adt_def(did);
+                                            variants.push(format!("{}::{}", tcx.def_path_str(did), ad.variant(vidx).name));
+                                        }
+                                    }
+                                }
+                            }
+                        }
+                        if variants.len() == 1 {
+                            o.push(("promoted_variant", s(variants[0].clone())));
+                        }
+                    }
+                }
             }
         }
         let tenv = ty::TypingEnv::post_analysis(tcx, owner);
